@@ -39,10 +39,9 @@ class FnTarget(_AbstractDistribution):
             self.update_bounds(lower, upper)
 
     def _tick(self, kind):
-        k = self.ncalls
         self.ncalls += 1
         if self.fault is not None:
-            self.fault(kind, k)
+            self.fault(kind, len(self.glog))     # global index of this call in the shared log
 
     def misfit_value(self, m):
         h = _h(self.seed, "m", m)
@@ -147,10 +146,9 @@ class FnMass(_AbstractMassMatrix):
         self.ncalls = 0
 
     def _tick(self, kind):
-        k = self.ncalls
         self.ncalls += 1
         if self.fault is not None:
-            self.fault(kind, k)
+            self.fault(kind, len(self.glog))
 
     def kinetic_value(self, p):
         h = _h(self.seed, "k", p)
